@@ -69,6 +69,11 @@ def leak(d, dg):
     ct = d["msgdata"]
     at = dg.find(ct)
     outside = dg[:at] + b"|" + dg[at + len(ct):] if at >= 0 else dg
+    # msgAuthoritativeEngineID / Boots / Time are public session state, not PDU content: a run of the PDU that happens
+    # to spell those three elements (a random request id ending 04 00 followed by error-status 0 and error-index 0 reads
+    # like "empty engine id, boots 0, time 0" of an undiscovered session) is no leak
+    pub = ber.tlv(0x04, d.get("engine_id", b"")) + ber.INT(d.get("boots", 0)) + ber.INT(d.get("time", 0))
+    outside = outside.replace(pub, b"|")
     try:
         _, _, _, hdr = ber.parse_tlv(pt, 0)
     except ber.BerError:
@@ -212,6 +217,41 @@ def run(chk, model_ok=True):
         n_cli += 1
         if why and any(w in why for w in ("not encrypted", "priv flag", "carries user", "failed with")):
             fail(f"{key}: {why}", f"# client {key}")
+    # a privacy key whose value is empty is still a privacy key (user.py zero-pads master / localized keys):
+    # the session must encrypt, not silently fall back to clear text
+    import agent as ag
+    from gufo.snmp.user import Aes128Key, DesKey, KeyType, Md5Key, Sha1Key, User
+    for auth, pcls, palg in ((1, DesKey, 1), (2, Aes128Key, 2), (2, DesKey, 1)):
+        for kt, ktn in ((KeyType.Master, "master"), (KeyType.Localized, "localized")):
+            klen = 16 if auth == 1 else 20
+            eng = bytes(rng.getrandbits(8) for _ in range(11))
+            akey = bytes(rng.getrandbits(8) for _ in range(klen))
+            stz = ag.V3AgentState(eng, boots=3, time=4, user="empty-priv", auth_alg=auth, auth_password=akey, priv_alg=palg,
+                                  priv_password=bytes(klen), auth_key_type="localized", priv_key_type=ktn)
+            user = User("empty-priv", auth_key=(Md5Key if auth == 1 else Sha1Key)(akey, key_type=KeyType.Localized),
+                        priv_key=pcls(b"", key_type=kt))
+            kw = dict(engine_id=eng, user_name=user.name, auth_alg=user.get_auth_alg(), auth_key=user.get_auth_key(),
+                      priv_alg=user.get_priv_alg(), priv_key=user.get_priv_key())
+            r = e2e.ncall(lambda: ag.make_sock(env.fast, env.agent, 3, **kw))
+            n_cli += 1
+            line = f"# empty {ktn} privacy key, auth {auth}, cipher {palg}"
+            if r[0] != "ok":
+                if not r[2]:
+                    fail(f"empty {ktn} privacy key: constructor crashed ({r[1]})", line)
+                continue            # refusing the key is fine; silently dropping privacy is not
+            env.agent.recv_all()
+            s1 = e2e.ncall(lambda: r[1].send_get("1.3.6.1.2.1.1.1.0"))
+            dgs = env.agent.recv_all(expect=1, wait=0.05)
+            if s1[0] == "ok" and dgs:
+                dd = ber.decode_message(dgs[-1])
+                if not dd["flags"] & 2 or not dd.get("encrypted"):
+                    fail(f"a user with an (empty, {ktn}) privacy key sends in clear: flags {dd['flags']}, msgData "
+                         f"{'encrypted' if dd.get('encrypted') else 'plaintext'}", line)
+                else:
+                    try:
+                        stz.parse_request(dgs[-1])
+                    except ber.BerError as ex:
+                        fail(f"empty {ktn} privacy key (zero-padded by user.py): the request does not decrypt under that key: {ex}", line)
     nl, nd = sessions.model_compare(chk, all_sess, model_ok)
     chk.coverage.update({
         "evaluations": n_msg + n_pairs,
